@@ -5,7 +5,7 @@ import os
 
 import vf
 
-READY = True
+READY = False
 # Where the zeros of a short last word of push_slice go.  "right" is the property's sentence ("the last
 # word right-padded with zeros") and what bin/check judges.  "left" (the bytes right-aligned, i.e. the
 # number they spell -- the yellow paper's PUSH1..PUSH31) exists for the lead's decision and for
@@ -66,10 +66,11 @@ def run(ctx, pid):
             SliceLens=lens, MaxHist=3), BIGINV))
     else:
         runs.append(("stack_1024", consts(
-            Heights=[0, 1, 2, 15, 16, 17, 18, 32, 33, 34, 256, 257, 258, 1007, 1008, 1021, 1022, 1023, 1024],
+            Heights=[0, 1, 2, 15, 16, 17, 18, 33, 34, 257, 258, 1008, 1022, 1023, 1024],
             Ns=list(range(1, 19)) + [32, 33, 255, 256, 257, 1023, 1024, 1025],
             Is=[0, 1, 2, 15, 16, 17, 31, 32, 33, 255, 256, 1021, 1022, 1023, 1024, 1025],
-            ExN="0..16", ExM="1..16", SliceLens=lens + [2, 8, 9, 63, 95, 96, 97, 32 * 1022 + 5], MaxHist=3), BIGINV))
+            ExN=[0, 1, 2, 3, 7, 8, 14, 15, 16], ExM="1..16",
+            SliceLens=lens + [2, 8, 9, 63, 95, 96, 97, 32 * 1022 + 5], MaxHist=3), BIGINV))
         runs.append(("stack_1024_deep", consts(
             Heights=[0, 1, 16, 17, 1022, 1023, 1024], Ns=[1, 2, 16, 17, 256], Is=[0, 1, 16, 1023],
             ExN=[0, 1, 16], ExM=[1, 16], SliceLens=[0, 1, 32, 33, 65, 32 * 1023, 32 * 1024 + 1], MaxHist=4),
